@@ -526,6 +526,33 @@ class PrimaryOrSupplementaryVD:
 
         return (added_block, block, offset)
 
+    def remove_rr_ce_entry(self, block, offset, length):
+        # type: (rockridge.RockRidgeContinuationBlock, int, int) -> bool
+        """
+        Remove a Rock Ridge Continuation Entry from the block it lives in.  If
+        that leaves the block without any entries, stop tracking the block.
+
+        Parameters:
+         block - The block that the Continuation Entry lives in.
+         offset - The offset within the block of the Continuation Entry.
+         length - The length of the Continuation Entry.
+        Returns:
+         True if the block is no longer needed, False otherwise.
+        """
+        if not self._initialized:
+            raise pycdlibexception.PyCdlibInternalError('This Primary Volume Descriptor is not initialized')
+
+        block.remove_entry(offset, length)
+        if not block.is_empty():
+            return False
+
+        for index, tracked in enumerate(self.rr_ce_blocks):
+            if id(tracked) == id(block):
+                del self.rr_ce_blocks[index]
+                return True
+
+        return False
+
     def clear_rr_ce_entries(self):
         # type: () -> None
         """
